@@ -54,13 +54,16 @@ def run_check(tier, seed, replay=None):
         c.violation("history:%s:%s:%s" % (rs.get("kind"), ev.get("e"), ev.get("result", "")),
                     "data written by the reference build: %s [%s %s]" % (json.dumps(ev), rs.get("kind"), json.dumps(rs.get("label"))[:160]),
                     {"kind": "history", "seed": seed, "reset": rs, "event": ev})
-    # frozen implicit format: the current build's predictions recomputed by Match.tla (no
-    # reference build involved): hash function, dictionary policy, candidate order, search
-    # limits and the lazy rule are part of what gives stored corrections their meaning
+    # frozen implicit format: the current build's predictions, the correction operations of every
+    # token and the decoder's reading of them recomputed by Match.tla (no reference build
+    # involved): hash function, dictionary policy, candidate order, search limits, the lazy rule
+    # and the hop count of a distance are part of what gives stored corrections their meaning.
+    # Streams of all compressors, of a deliberately sloppy one, and every stream again under
+    # parameter vectors next to the estimated one.
     same_versions = not (resets and resets[0]["versions"]["ref"] != resets[0]["versions"]["cur"])
     mtr = os.path.join(wd, "match.trace")
-    vh(["match-record", "--seed", seed, "--streams", 40 if q else 600, "--sweeps", 6 if q else 40, "--window", 4,
-        "--maxplain", 4000 if q else 12000, "--out", mtr], timeout=7200)
+    vh(["match-record", "--seed", seed, "--streams", 40 if q else 500, "--sweeps", 4 if q else 30, "--window", 4,
+        "--perturb", 2 if q else 3, "--maxplain", 3000 if q else 10000, "--out", mtr], timeout=7200)
     mcases = {r["run"]: r for r in read_ndjson(mtr + ".cases")}
     macc, mrej, mstates = validate_runs("Trace_Match", wd, mtr, view="TraceView", heap="12g", timeout=6000)
     supported = sum(1 for x in read_ndjson(mtr) if x["e"] == "Reset" and x["supported"])
